@@ -107,8 +107,41 @@ def gen(rng, kind):
         beq = rng.normal(size=meq) * delta
     const = 0.0 if rng.random() < 0.6 else float(rng.normal() * mag)
     xpt = rng.normal(size=(n, int(rng.integers(1, 2 * n + 2)))) * delta * 10.0 ** rng.uniform(-1, 1)
+    if rng.random() < 0.3:
+        xpt[rng.random(xpt.shape) < 0.3] = 0.0      # lines along coordinate directions / with exact zeros
+    if kind == "spider":
+        for i in range(n):                          # a line that does not move a variable sitting on its bound: 0 / 0 ratios
+            if (xl[i] == 0.0 or xu[i] == 0.0) and rng.random() < 0.5:
+                xpt[i, int(rng.integers(xpt.shape[1]))] = 0.0
     return {"kind": kind, "n": n, "g": g, "H": H, "xl": xl, "xu": xu, "aub": aub, "bub": bub, "aeq": aeq, "beq": beq,
             "delta": delta, "const": const, "xpt": xpt, "improve_tcg": bool(rng.random() < 0.6), "convex": convex}
+
+
+def gen_coupled(rng, nmax=4):
+    """strongly coupled convex models in a box that is narrow in one variable and a large trust region: a bound is reached
+    strictly inside the trust region, the conjugate gradients restart, and the gradient component of the variable just
+    fixed may have changed sign through the coupling"""
+    n = int(rng.integers(2, nmax + 1))
+    L = np.tril(rng.normal(size=(n, n)) * 2.0)
+    L[np.diag_indices(n)] = np.abs(rng.normal(size=n)) + 0.5
+    H = L @ L.T
+    g = rng.normal(size=n) * float(rng.choice([1.0, 4.0, 8.0]))
+    xl = -np.abs(rng.normal(size=n)) * 3.0
+    xu = np.abs(rng.normal(size=n)) * 3.0
+    for _ in range(int(rng.integers(1, 3))):
+        i = int(rng.integers(n))
+        if rng.random() < 0.5:
+            xl[i] = -float(rng.choice([0.05, 0.125, 0.3]))
+        else:
+            xu[i] = float(rng.choice([0.05, 0.125, 0.3]))
+    for i in range(n):
+        if rng.random() < 0.25:
+            xl[i] = -INF
+        if rng.random() < 0.25:
+            xu[i] = INF
+    return {"kind": "tangential", "n": n, "g": g, "H": H, "xl": xl, "xu": xu, "aub": np.zeros((0, n)), "bub": np.zeros(0),
+            "aeq": np.zeros((0, n)), "beq": np.zeros(0), "delta": float(rng.choice([2.0, 4.0, 8.0])), "const": 0.0,
+            "xpt": np.zeros((n, 1)), "improve_tcg": bool(rng.random() < 0.5), "convex": True}
 
 
 def gen_improve(rng, nmin=3, nmax=6):
